@@ -499,7 +499,10 @@ def _callable_cond(draw, table):
     cols = table['cols']
     n = len(table['data'][cols[0]])
     fn = draw(st.sampled_from(['table', 'table', 'table'] + sorted(_CATALOGUE)))
-    ret = draw(st.sampled_from(['bool', 'int01', 'bool', 'bool', 'none_x', 'bool', 'mixed', 'bool', 'int02', 'bool', 'str', 'bool', 'list', 'bool', 'bool']))
+    # about 40% of the callables return their verdict as a truthy / falsy non-bool
+    ret = 'bool'
+    if draw(st.sampled_from([True, False, False, True, False])):
+        ret = draw(st.sampled_from(['mixed', 'int02', 'int01', 'none_x', 'str', 'list']))
     if fn == 'table':
         nargs = draw(st.integers(1, min(3, len(cols))))
         args = list(draw(st.permutations(cols))[:nargs])
